@@ -1,7 +1,7 @@
 (* C10 — nil? / is_a? narrowing is exact inside branches and undone afterwards.
    A type is the list of the classes of its variants; `minus` removes classes.  For `if C` / `unless C` with C an
    && chain of tests, each on its own variable:  Proofs in NarrowP.v. *)
-From RT Require Import Model.Narrow Proofs.NarrowP Proofs.NarrowChainP Proofs.NarrowElsifP.
+From RT Require Import Model.Narrow Proofs.NarrowP Proofs.NarrowChainP Proofs.NarrowElsifP Proofs.NarrowSoundP.
 
 (* inside the branch of the condition every tested variable has exactly the variants its test admits *)
 Theorem C10_then_exact : forall k c e t, NoDup (map t_var c) -> In t c ->
@@ -48,6 +48,19 @@ Theorem C10_elsif_exact : forall t0 ts he e, all_pos (t0 :: ts) = true ->
     (he = true -> exists b, ee = Some b /\ forall y, ty_of b y = minus (ty_of e y) (taken (t0 :: ts) y)).
 Proof. exact elsif_chain_exact. Qed.
 Print Assumptions C10_elsif_exact.
+
+(* the same chains with tests of EITHER polarity (`!x.nil?`, `!x.is_a?(C)` too): narrowing is sound — a variant of a
+   variable that no earlier branch has taken (`taken_by`), and that passes the branch's own test when the test is on
+   this variable, is in the variable's type in that branch (BranchSound / branches_sound); a variant that no branch has
+   taken is in its type in the else branch.  (After a negated test ti may keep variants that cannot reach a later
+   branch: such branches are unreachable in Ruby.) *)
+Theorem C10_elsif_sound : forall t0 ts he e,
+  exists brs ee ea, chain true [t0] (map (fun t => [t]) ts) he e = (brs, ee, ea) /\
+    branches_sound e [] (t0 :: ts) brs /\
+    (he = true -> exists b, ee = Some b /\
+       forall y v, In v (ty_of e y) -> taken_by (t0 :: ts) y v = false -> In v (ty_of b y)).
+Proof. exact elsif_chain_sound. Qed.
+Print Assumptions C10_elsif_sound.
 
 Example C10_elsif_example :
   let e := [("x", ["NilClass"; "String"; "Integer"]); ("y", ["Integer"; "Float"])] in
